@@ -69,7 +69,8 @@ pub(crate) fn fuzzy_round(number: f64) -> f64 {
         } else {
             number.ceil()
         }
-    } else if fuzzy_less_than_or_equals(number % 1.0, 0.5) {
+    // dart-sass' `%` is the Euclidean remainder, Rust's takes the sign of the dividend
+    } else if fuzzy_less_than_or_equals(number.rem_euclid(1.0), 0.5) {
         number.floor()
     } else {
         number.ceil()
